@@ -421,7 +421,73 @@ REGISTRY = {
 
 
 # ------------------------------------------------------------------------------------------------
+def cfg_from_line(line):
+    """rebuild a gen_machine.Config from a `cfg ...` line (replay)"""
+    f = dict(t.split("=", 1) for t in line.split()[1:])
+    b = lambda k: f.get(k) == "1"
+    payload = f.get("ptype") or ("u8" if b("payload") else "none")
+    return G.Config(ctx=f.get("ctx", "ref"), L=int(f["L"]), cap=int(f["cap"]), head=b("head"), manual=b("manual"), payload=payload,
+                    plans=b("plans"), history=b("history"), serial=b("serial"), log=b("log"), verbose=b("verbose"),
+                    defines=f["defines"].split(","), inj=[int(x) for x in f["inj"].split(",")], n=int(f["n"]))
+
+
+def replay(ctx):
+    """re-run exactly one stored case against the current tree: prints the implementation's and the
+    model's projected traces around the first difference and the oracle's verdict; exit 1 if they still
+    differ / the oracle still fires"""
+    d = json.load(open(ctx.replay))
+    C.translate()
+    ok, logtxt = C.ensure_driver()
+    cases = []
+    def walk(x):
+        if isinstance(x, dict):
+            for k, v in x.items():
+                if k in ("minimal_case", "case") and isinstance(v, list) and v and isinstance(v[0], str):
+                    cases.append((x.get("engine"), v))
+                else:
+                    walk(v)
+        elif isinstance(x, list):
+            for v in x:
+                walk(v)
+    walk(d)
+    if not cases:
+        C.log("replay: the file holds no stored case (it names a broken obligation or a command): %s" % json.dumps(d)[:600])
+        return 0
+    rc = 0
+    for engine, case in cases[:3]:
+        if case[0].startswith("case "):
+            cfg = cfg_from_line(case[1])
+            exe, lg = MM.build(cfg)
+            if exe is None:
+                C.log("replay: harness does not compile"); rc = 1; continue
+            r = MM.run_cases(exe, [case], timeout=120)
+            impl = r[1][0] if r[1] else []
+            model = r[3][0] if r[3] else []
+            pa, pb = MM.projected(ctx.prop, impl), MM.projected(ctx.prop, model)
+            k = next((j for j in range(min(len(pa), len(pb))) if pa[j] != pb[j]), None if len(pa) == len(pb) else min(len(pa), len(pb)))
+            v = O.run(ctx.prop, case[1], impl)
+            C.log("replay: %d ops; first projected difference: %s; oracle: %s" % (sum(1 for l in case if l.startswith("op ")), k, v))
+            if k is not None:
+                C.log("  impl : " + " | ".join(pa[max(0, k - 2):k + 2])); C.log("  model: " + " | ".join(pb[max(0, k - 2):k + 2]))
+            if k is not None or v:
+                rc = 1
+        elif engine in K.ORACLES:
+            caps = [int(case[0].split()[1])]
+            exe, lg = K.build(caps)
+            rc_i, out_i = K.run_engine(exe, engine, [case])
+            rc_m, out_m = K.run_engine(C.DRIVER, engine, [case])
+            v = K.ORACLES[engine](case, out_i)
+            C.log("replay: engine %s, %d ops; impl == model: %s; oracle: %s" % (engine, len(case), out_i == out_m, v))
+            if out_i != out_m or v:
+                rc = 1
+    if rc:
+        C.log("VIOLATION property=%s replay=%s" % (ctx.prop, ctx.replay))
+    return rc
+
+
 def run_property(ctx):
+    if ctx.replay:
+        return replay(ctx)
     spec = REGISTRY[ctx.prop]
     out = C.Outcome(ctx.prop)
     # 1. translate
